@@ -54,5 +54,6 @@ namespace BitSerializer::Detail
 		char* mStartDataPtr = mBuffer;
 		char* mEndDataPtr = mBuffer;
 		size_t mStreamPos = 0;
+		std::streamoff mStreamOrigin = 0;
 	};
 }
